@@ -128,6 +128,17 @@ MarkupRepresentable(kids, enc) ==
        [] kids[i].k = "elem" -> MarkupRepresentable(kids[i].kids, enc)
        [] OTHER -> TRUE
 
+(* 16.2: "The html output method should not perform escaping for the content of the script and style        *)
+(* elements" - so there are no character references there either: a character of such content that the       *)
+(* encoding cannot represent cannot be written at all, and an error is the conforming outcome.                 *)
+ScriptName == <<115, 99, 114, 105, 112, 116>>      StyleName == <<115, 116, 121, 108, 101>>
+RECURSIVE HtmlRawRepresentable(_, _, _)
+HtmlRawRepresentable(kids, enc, inRaw) ==
+  \A i \in 1..Len(kids) :
+     CASE kids[i].k = "text" -> ~inRaw \/ RepresentableIn(kids[i].v, enc)
+       [] kids[i].k = "elem" -> HtmlRawRepresentable(kids[i].kids, enc, inRaw \/ LowerS(kids[i].name) \in {ScriptName, StyleName})
+       [] OTHER -> TRUE
+
 (* ------------------------------------------------------------------------------ method = html ------- *)
 VoidElems == {"br", "hr", "img", "input", "meta", "link", "area", "base", "col", "param"}
 (* %URI; attributes of HTML 4.01 *)
